@@ -44,6 +44,15 @@ CHECKS = {
     "C19": tv("DESIGN.md 4 C19", "The real debug-mode code (assert_and_track bookkeeping, unsat branch of solve()) runs against the solver stub answering unsat with every explored core; the constraints printed must be constraints of the problem and must include the owner of every constraint-owned core literal (ownership computed from the constraints' own assertion lists), which by monotonicity makes basic rules + printed constraints unsat; all constraint assertions are tracked with distinct literals; the debug assertion set under all tracking literals is proved equivalent to the non-debug one. Replays isolate the conflict on the real z3 and re-solve the printed subset independently.",
               level=MC, technique="symbolic execution of the real debug-mode control code against a contract-level solver stub over explored unsat cores + SMT equivalence debug vs non-debug, isolating replay on the real z3",
               note="z3's unsat-core extraction trusted; cores explored exhaustively only for <= 6 constraint-owned literals."),
+    "C11": tv("DESIGN.md 4 C11", "The real build_solution() runs on an identity model (model[v] = v, Booleans = explorer choices consistent with phi_real), so every field of the returned solution is a term over the schedule variables and each obligation is a validity query under phi_real, i.e. holds for every model z3 could return: end - start = duration, reported start/end/flag are the schedule's, horizon >= every end, task<->resource listing consistency, assignment interval = the interval the requirement implies (span / shifted / inside), cumulative units folded once, unscheduled => no assignment, calendar times as exact symbolic multiples of delta_time. A concrete layer re-validates against real z3 models incl. delta_time of a day and more / sub-second.",
+              level=MC, technique="symbolic execution of the real build_solution on an identity model stub + SMT validity queries under phi_real; real-z3 models as trace validation",
+              note="Model stub contract: any model of phi_real; datetime arithmetic modelled as exact integer multiples; bounded shapes (3 tasks, workers, selection, cumulative, buffer, indicator)."),
+    "C15": tv("DESIGN.md 4 C15", "For every configuration (optimizer x priority x parallel x random_values x debug x logics; quick: singles, pairs, some triples; thorough: full product) the real solver is constructed and initialised next to a default-configuration solver on the same parametric problem; the two assertion sets are proved equivalent as constraint systems (two quantified halves, debug under all tracking literals) and the objective wiring is compared with the declaration. z3's own behaviour under an option is trusted and exercised by a concrete layer (real z3, 3 instances x 11 configurations: verdicts, validity, optimum)."),
+    "C16": tv("DESIGN.md 4 C16", "PARTLY APPLICABLE. Solver-decided: the SMT-LIB text written by the real export_to_smt2 (both optimisers, before/after a solve) is parsed back and proved equivalent to the system captured at solve()'s first check(); to_df() and the Excel exporter run on a symbolic solution with recording DataFrame/Workbook and every cell is proved equal to the reported field (columns start+1..max(start+1,end), nothing for unscheduled tasks, indicator values). Not solver-decided (compiled serialisers): byte-level JSON/CSV/XLSX and JSON round trips of task and cost-function definitions are only exercised by six concrete round trips with the real libraries.",
+              note="z3's printer/parser pair, pandas and xlsxwriter storing what they are given are trusted; byte-level serialisers are outside symbolic reach (trace validation only)."),
+    "C17": tv("DESIGN.md 4 C17", "The real render_gantt_matplotlib runs on a solution with symbolic (integral real) times against a recording pyplot/axes; z3 proves that bars and reported items correspond one to one on the row whose tick label is the item's resource/task, span (start, end-start) or are a marker centred on the instant for zero length, that the task view draws scheduled tasks only, and that buffer curves are the reported step functions. A concrete layer renders every layout with the real Agg backend once and twice in a row and inspects the artists.",
+              note="matplotlib trusted (recorder contract: it draws what it is asked to); floats as exact rationals; concrete horizon; plotly outside the claim."),
+    "C18": tv("DESIGN.md 4 C18", "Q-region per integer parameter: accepted region of the real constructor (field constraints read from the class at run time AND non-raising paths of the symbolically executed constructor body) XOR the well-formed region of the property is shown unsat over all integers; every parameter is also run at boundary values on the unpatched constructors (ties the metadata to pydantic-core); finite class-level rules (optional-task rules on mandatory tasks, force-apply over mandatory constraints, resource constraints on unassigned resources, elements without a problem, duplicate names per registry over all equality patterns of three names) are executed on both sides."),
 }
 
 NOT_APPLICABLE = {}
